@@ -130,7 +130,7 @@ func (encryptor *HashQuery) OnQuery(ctx context.Context, query mysql.OnQueryObje
 
 		// substring(column, 1, <HMAC_size>) = 'value' ===> substring(column, 1, <HMAC_size>) = <HMAC('value')>
 		// substring(column, 1, <HMAC_size>) = $1      ===> no changes
-		err := mysql.UpdateExpressionValue(ctx, item.Expr.Right, encryptor.coder, item.Setting, encryptor.calculateHmac)
+		err := mysql.UpdateExpressionValue(ctx, item.Expr.Right, encryptor.coder, item.Setting, encryptor.hmacCalculator(item.Setting))
 		// an empty search value stays as it is (see calculateHmac)
 		if err != nil && err != mysql.ErrUpdateLeaveDataUnchanged {
 			logrus.WithError(err).Debugln("Failed to update expression")
@@ -235,7 +235,7 @@ func (encryptor *HashQuery) replaceValuesWithHMACs(ctx context.Context, values [
 		}
 		// If we can't decrypt the data and compute its HMAC, searchable encryption failed to apply.
 		// Since we have already modified the query, it's likely to fail, but we can't do much about it.
-		hmacHash, err := encryptor.calculateHmac(ctx, data)
+		hmacHash, err := encryptor.hmacCalculator(encryptionSetting)(ctx, data)
 		if err != nil {
 			logrus.WithError(err).WithField("index", valueIndex).Debug("Failed to encrypt column")
 			return values, false, err
@@ -244,6 +244,17 @@ func (encryptor *HashQuery) replaceValuesWithHMACs(ctx context.Context, values [
 		_ = newValues[valueIndex].SetData(hmacHash, encryptionSetting)
 	}
 	return newValues, true, nil
+}
+
+// hmacCalculator returns calculateHmac bound to the client the column belongs to: like on the write side
+// (QueryDataEncryptor), ClientID from ColumnEncryptionSetting is used if not empty, otherwise ClientID of the connection
+func (encryptor *HashQuery) hmacCalculator(setting config.ColumnEncryptionSetting) func(context.Context, []byte) ([]byte, error) {
+	return func(ctx context.Context, data []byte) ([]byte, error) {
+		if setting != nil && len(setting.ClientID()) > 0 {
+			ctx = base.SetAccessContextToContext(ctx, base.NewAccessContext(base.WithClientID(setting.ClientID())))
+		}
+		return encryptor.calculateHmac(ctx, data)
+	}
 }
 
 func (encryptor *HashQuery) calculateHmac(ctx context.Context, data []byte) ([]byte, error) {
